@@ -158,8 +158,8 @@ def uoutStr {α : Type} (f : α → String) : UOut α → String
   | .panic s => "PANIC " ++ s
   | .oob => "OOB"
 
-/-- the driver parses trees of nesting up to 70 (the harness generates up to 66) -/
-def drvDepth : Nat := 70
+/-- the driver parses trees of nesting up to maxRecursionDepth + 6 (the harness generates up to + 2) -/
+def drvDepth : Nat := Facts.ufMaxRecursionDepth + 6
 
 def MD : Nat := Facts.ufMaxRecursionDepth
 
@@ -187,10 +187,10 @@ def mWrt (fs : List (UF drvDepth)) : String :=
 
 /-! ## spec column (evaluated on the implementation's result) -/
 
-/-- a tree text is in C13's tree domain: nesting ≤ 64 (it parses as `UF 64`), ≥ 1 field, well typed -/
+/-- a tree text is in C13's tree domain: nesting ≤ maxRecursionDepth (it parses as `UF MD`), ≥ 1 field, well typed -/
 def treeDomain (t : String) : Bool :=
-  match parseUFs 64 t with
-  | some fs => wts 64 fs
+  match parseUFs MD t with
+  | some fs => wts MD fs
   | none => false
 
 def verdictConvert (b : Bytes) (res : String) : String :=
@@ -198,16 +198,16 @@ def verdictConvert (b : Bytes) (res : String) : String :=
   | "PANIC" :: _ => "bad:C03:panic"
   | "OOB" :: _ => "bad:C03:oob"
   | ["ok", t] =>
-    if ufEncFields 64 b then
-      match parseUFs 64 t with
-      | none => "bad:C13:tree-deeper-than-64-or-malformed"
+    if ufEncFields MD b then
+      match parseUFs MD t with
+      | none => "bad:C13:tree-deeper-than-limit-or-malformed"
       | some fs =>
-        if !wts 64 fs then "bad:C13:tags-or-types"
-        else if writeUFs 64 fs != .ok b then "bad:C13:tree-does-not-denote-input"
-        else if lenUFs 64 fs != .ok b.length then "bad:C13:length"
+        if !wts MD fs then "bad:C13:tags-or-types"
+        else if writeUFs MD fs != .ok b then "bad:C13:tree-does-not-denote-input"
+        else if lenUFs MD fs != .ok b.length then "bad:C13:length"
         else "ok"
     else "na"
-  | "err" :: _ => if ufEncFields 64 b then "bad:C13:rejected-valid" else "na"
+  | "err" :: _ => if ufEncFields MD b then "bad:C13:rejected-valid" else "na"
   | _ => "bad:protocol"
 
 def verdictRt (b : Bytes) (res : String) : String :=
@@ -219,17 +219,17 @@ def verdictRt (b : Bytes) (res : String) : String :=
     match parseHex h, l.toNat? with
     | some w, some l =>
       if w.length != l then "bad:C13:length-vs-written"
-      else if ufEncFields 64 b then
+      else if ufEncFields MD b then
         (if w != b then "bad:C13:roundtrip-bytes" else "ok")
       else "na"
     | _, _ => "bad:protocol"
-  | "err" :: _ => if ufEncFields 64 b then "bad:C13:rejected-valid" else "na"
+  | "err" :: _ => if ufEncFields MD b then "bad:C13:rejected-valid" else "na"
   | _ => "bad:protocol"
 
 /-- verdict of the tree entry points. `fs` is the parsed tree; for a well-typed tree (any nesting) the spec
     encoding `ufSpecEncs` fixes the bytes and therefore the length: the computed length, the number of
     bytes written and the spec encoding's length must all agree (`bad:C13:length`), the bytes written must
-    be the spec encoding, and for nesting ≤ 64 the tree must come back unchanged. -/
+    be the spec encoding, and for nesting ≤ maxRecursionDepth the tree must come back unchanged. -/
 def verdictTreeOp (op t : String) (fs : List (UF drvDepth)) (res : String) : String :=
   let wtAny := wts drvDepth fs
   let dom64 := treeDomain t
